@@ -94,6 +94,12 @@ func (s *scope) runInitializers() error {
 	s.rootProvider.voidReturnScopedDescriptorsMu.RUnlock()
 
 	for _, descriptor := range descriptors {
+		// An initializer that another initializer depends on (by name) has already
+		// run in this scope when its turn comes
+		if _, done := s.getInstance(instanceKey{Type: descriptor.Type, Key: descriptor.Key, Group: descriptor.Group}); done {
+			continue
+		}
+
 		if _, err := s.createInstance(descriptor); err != nil {
 			initErr := &ResolutionError{
 				ServiceType: descriptor.Type,
